@@ -232,6 +232,24 @@ def strat_stub(tier):
     return stub_case()
 
 
+def check_no_backend(text):
+    """A signed Manifest loaded with default arguments but without any
+    OpenPGP environment: whatever happens, it is not reported as signed."""
+    m = ManifestFile()
+    try:
+        m.load(io.StringIO(text))
+        outcome = 'loaded'
+    except Exception as e:
+        outcome = type(e).__name__
+    if m.openpgp_signed or m.openpgp_signature is not None:
+        return violation(
+            f'ManifestFile.load() without an OpenPGP environment '
+            f'({outcome}) reports the Manifest as signed although nothing '
+            f'verified the signature: {text[:120]!r}',
+            sig='signed-without-backend')
+    return None
+
+
 def run_stub(desc):
     d = harness.fresh_dir('c05s')
     realgpg = gemato.openpgp.GNUPG
@@ -251,6 +269,9 @@ def run_stub(desc):
         v, res = judge_status(
             desc['seq'], desc['rc'],
             lambda: env.verify_file(io.StringIO(SIGNED_TEXT)), what)
+        if v is not None:
+            return v
+        v = check_no_backend(SIGNED_TEXT)
         if v is not None:
             return v
         kws = {SHORT[i] for i in desc['seq']}
